@@ -6,20 +6,30 @@ Import ListNotations.
 Open Scope string_scope.
 Set Implicit Arguments.
 
-Local Notation rs := (@rd_s Qc).
-Definition run6 (f : Qc -> Qc -> Qc -> Qc -> Qc -> Qc -> val) (l : list Qc) : val :=
-  match l with [a; b; c; d; e; g] => f a b c d e g | _ => VBad end.
+Section G.
+  Variable F : Type.
+  Variable O : Ops F.
+  Variable T : Trig F.
+  Variable A : Approx F.
+  Variable toNat : F -> nat.
 
-Definition tab_c10 (o : Orc) : list (string * (list Qc -> val)) :=
-  let T := TrigQ o in [
-  ("ortho", run6 (fun l r b t n f => om4 (m4_ortho O l r b t n f)));
-  ("frustum", run6 (fun l r b t n f => pn om4 (m4_frustum O l r b t n f)));
-  ("perspective", run4 rs rs rs rs (fun fovy a n f => pn om4 (m4_perspective O T ApproxQ fovy a n f)));
-  ("perspective_deg", run4 rs rs rs rs (fun fovy a n f => pn om4 (m4_perspective O T ApproxQ (rad_of_deg O fovy) a n f)));
-  ("to_perspective", run4 rs rs rs rs (fun fovy a n f => vq (to_perspective O T fovy a n f)));
-  ("planar", run5 rs rs rs rs rs (fun fovy a h n f => pn om4 (m4_planar O T ApproxQ fovy a h n f)));
-  ("m4_transform_point", run2 (@rd_m4 Qc) (@rd_p3 Qc) (fun m p => op3 (m4_transform_point O m p)))
+
+  Local Notation rs := (@rd_s F).
+Definition grun6 (f : F -> F -> F -> F -> F -> F -> gval F) (l : list F) : gval F :=
+  match l with [a; b; c; d; e; g] => f a b c d e g | _ => GBad end.
+
+Definition gtab_c10 : list (string * (list F -> gval F)) := [
+  ("ortho", grun6 (fun l r b t n f => gm4 (m4_ortho O l r b t n f)));
+  ("frustum", grun6 (fun l r b t n f => gpn gm4 (m4_frustum O l r b t n f)));
+  ("perspective", grun4 rs rs rs rs (fun fovy a n f => gpn gm4 (m4_perspective O T A fovy a n f)));
+  ("perspective_deg", grun4 rs rs rs rs (fun fovy a n f => gpn gm4 (m4_perspective O T A (rad_of_deg O fovy) a n f)));
+  ("to_perspective", grun4 rs rs rs rs (fun fovy a n f => GQ (to_perspective O T fovy a n f)));
+  ("planar", grun5 rs rs rs rs rs (fun fovy a h n f => gpn gm4 (m4_planar O T A fovy a h n f)));
+  ("m4_transform_point", grun2 (@rd_m4 F) (@rd_p3 F) (fun m p => gp3 (m4_transform_point O m p)))
 ].
+End G.
+
+Definition tab_c10 (o : Orc) : list (string * (list Qc -> val)) := qtab (gtab_c10 OpsQ (TrigQ o) ApproxQ).
 
 Definition run_c10 : runner := fun f o args =>
   match dispatch (tab_c10 o) f with Some h => h args | None => VBad end.
